@@ -45,7 +45,7 @@ ASSUMPTIONS = ["generators are pure: every invocation builds the same descriptio
                "when both twins refuse an operation the exception classes are not compared"]
 PLAN = {
     "quick": [{"flavour": "plain", "cases": 6400}, {"flavour": "san", "cases": 1600}],
-    "thorough": [{"flavour": "plain", "cases": 80000}, {"flavour": "san", "cases": 24000}],
+    "thorough": [{"flavour": "plain", "cases": 60000}, {"flavour": "san", "cases": 15000}],
 }
 WALL_CAP = {"quick": 900, "thorough": 3300}
 FORK_EACH = True
@@ -623,6 +623,19 @@ def _run_virtual(case, run):
             lazy_src[j] = bool(lazy_src.get(src)) and op != "carry"
             if isinstance(vres, V.VirtualArray):
                 tags.append("lazy_result")
+    # ---- (3b) whatever happened before (evictions, failed generations, a lost cache), a final complete read is still the true value
+    if gk not in BAD_GENERATORS and not (ckind == "broken" and run.broken):
+        for _ in range(len(w0["gen"].get("fail_calls", ())) + 2):
+            fk, fmsg, fv, _res = attempt(lambda: virt_root, {"op": "final_read"})
+            V.clear_pending()
+            if fk != "GeneratorFailure":
+                break
+        if fk != "ok":
+            raise Violation("final_read:%s|%s" % (fk, label), "the final complete read of the virtual array fails: %s" % fmsg, expected="ok", observed=[fk, fmsg])
+        truth = M.decode(desc)[1]
+        if not M.same_value(fv, truth):
+            raise Violation("value:final_read|" + label, "the final complete read of the virtual array differs from the eager array", expected=M.jsonable(truth), observed=M.jsonable(fv))
+        tags.append("final_read_ok")
     # ---- (4) nothing stale or partial is left visible in the cache
     if run.mapping is not None:
         run.quiet = True
